@@ -315,35 +315,57 @@ class RawFwdIt {
  private:
   T *p_;
 };
+// Logical offset (0 = first slot handed to the algorithm) of an iterator into a destination of n raw slots at base.
 template <class T>
-inline T *base_ptr(T *p) {
-  return p;
+inline long dst_offset(T *it, T *base, int) {
+  return static_cast<long>(it - base);
 }
 template <class T>
-inline T *base_ptr(RawFwdIt<T> it) {
-  return it.ptr();
+inline long dst_offset(RawFwdIt<T> it, T *base, int) {
+  return static_cast<long>(it.ptr() - base);
+}
+template <class T>
+inline long dst_offset(std::reverse_iterator<T *> it, T *base, int n) {
+  return static_cast<long>((base + n) - it.base());
 }
 
+// A destination kind names an iterator type over n raw slots at `base`:  make(base, n, pos) is the iterator at logical
+// position pos;  `reversed` says that logical slot i is physical slot n-1-i.
 struct DPtr {
   static const char *name() { return "ptr"; }
+  static const bool reversed = false;
   template <class T>
   struct It {
     typedef T *type;
   };
   template <class T>
-  static T *make(T *p) {
-    return p;
+  static T *make(T *base, int, int pos) {
+    return base + pos;
   }
 };
 struct DFwd {
   static const char *name() { return "fwd"; }
+  static const bool reversed = false;
   template <class T>
   struct It {
     typedef RawFwdIt<T> type;
   };
   template <class T>
-  static RawFwdIt<T> make(T *p) {
-    return RawFwdIt<T>(p);
+  static RawFwdIt<T> make(T *base, int, int pos) {
+    return RawFwdIt<T>(base + pos);
+  }
+};
+/// Random access but not a forward walk over contiguous memory: std::reverse_iterator<T*> over the raw slots.
+struct DRev {
+  static const char *name() { return "rev(ptr)"; }
+  static const bool reversed = true;
+  template <class T>
+  struct It {
+    typedef std::reverse_iterator<T *> type;
+  };
+  template <class T>
+  static std::reverse_iterator<T *> make(T *base, int n, int pos) {
+    return std::reverse_iterator<T *>(base + (n - pos));
   }
 };
 
@@ -420,6 +442,66 @@ struct ContBox {
   }
 };
 
+/// Elements in raw storage seen through std::reverse_iterator<T*>: element i lives at physical slot count-1-i.
+template <class T>
+struct RevPtrBox {
+  typedef T Elem;
+  typedef std::reverse_iterator<T *> It;
+  RawBuf<T> buf;
+  int cnt;
+  RevPtrBox() : cnt(0) {}
+  void build(int count) {
+    cnt = count;
+    for (int i = 0; i < count; ++i) make_at(elem(i), 10 + i);
+  }
+  It it(int i) { return It(buf.data() + (cnt - i)); }
+  T *elem(int i) { return buf.data() + (cnt - 1 - i); }
+  long offset(It p) { return static_cast<long>((buf.data() + cnt) - p.base()); }
+  void finish(const int *alive, int count) {
+    for (int i = 0; i < count; ++i)
+      if (alive[i]) elem(i)->~T();
+  }
+};
+
+/// A std::vector seen through reverse_iterator<vector::iterator>.
+template <class T>
+struct RevVecBox {
+  typedef T Elem;
+  typedef std::reverse_iterator<typename std::vector<T>::iterator> It;
+  std::vector<T> c;
+  int cnt;
+  RevVecBox() : cnt(0) {}
+  void build(int count) {
+    cnt = count;
+    c.reserve(MAXN);
+    for (int j = 0; j < count; ++j) c.emplace_back(10 + (count - 1 - j));
+  }
+  It it(int i) { return It(c.begin() + (cnt - i)); }
+  T *elem(int i) { return &c[static_cast<size_t>(cnt - 1 - i)]; }
+  long offset(It p) { return static_cast<long>((c.begin() + cnt) - p.base()); }
+  void finish(const int *alive, int count) {
+    for (int i = 0; i < count; ++i)
+      if (!alive[i]) make_at(elem(i), -1);
+  }
+};
+
+/// A std::deque range that crosses a block boundary: element 0 is the last slot of a block, element 1 the first slot
+/// of the next one (random access, not contiguous).  Built by padding the first block with dummies that are popped
+/// again; the straddle is verified by address, not assumed from the library's block size.
+template <class T>
+struct DeqStraddleBox : ContBox<std::deque<T> > {
+  void build(int count) {
+    std::deque<T> &d = this->c;
+    // libstdc++: 512-byte blocks, the first element of a fresh deque sits in slot 0 of its block
+    const int per_block = sizeof(T) < 512 ? static_cast<int>(512 / sizeof(T)) : 1;
+    for (int i = 0; i < per_block - 1; ++i) d.emplace_back(-5);
+    for (int i = 0; i < count; ++i) d.emplace_back(10 + i);
+    for (int i = 0; i < per_block - 1; ++i) d.pop_front();
+    if (count >= 2 && this->elem(1) == this->elem(0) + 1)
+      vf::fail("C15", "HARNESS: the deque range does not cross a block boundary (unexpected deque layout)");
+  }
+};
+
 /// The same elements seen through std::move_iterator.
 template <class B>
 struct MoveBox : B {
@@ -463,6 +545,21 @@ struct SFwd {
   static const char *name() { return "forward_list"; }
   template <class T>
   struct Box : ContBox<std::forward_list<T> > {};
+};
+struct SRev {  // std::reverse_iterator<T*>
+  static const char *name() { return "rev(ptr)"; }
+  template <class T>
+  struct Box : RevPtrBox<T> {};
+};
+struct SRevVec {  // std::reverse_iterator<std::vector<T>::iterator>
+  static const char *name() { return "rev(vector)"; }
+  template <class T>
+  struct Box : RevVecBox<T> {};
+};
+struct SDeqX {  // std::deque<T>::iterator over a range that crosses a block boundary
+  static const char *name() { return "deque.straddle"; }
+  template <class T>
+  struct Box : DeqStraddleBox<T> {};
 };
 template <class K>
 struct SMove {
